@@ -199,9 +199,11 @@ def gen_volumes(rng, surf_keys, u0, u1, bad_refs=False):
             op = rng.choice(['UNION', 'INTE'])
             others = [x for x in keys if x != key]
             args = rng.sample(others, rng.randint(1, min(3, len(others))))
+        origin = [(rng.randint(1, 30), rng.randint(1, 30))
+                  for _ in range(rng.choice([0, 0, 1, 2]))]
         vols.append((key, {'plus': sorted(set(plus)), 'minus': sorted(set(minus)),
                            'op': op, 'args': args,
-                           'fictive': rng.random() < 0.5}))
+                           'fictive': rng.random() < 0.5, 'origin': origin}))
     return vols
 
 
@@ -212,7 +214,8 @@ def to_volume_dict(vols):
     for key, v in vols:
         ops = None if v['op'] is None else (v['op'], tuple(v['args']))
         dic[key] = VolumeT4(list(v['plus']), list(v['minus']), ops=ops,
-                            idorigin=[], fictive=v['fictive'])
+                            idorigin=[tuple(o) for o in v.get('origin', [])],
+                            fictive=v['fictive'])
     return dic
 
 
@@ -221,7 +224,8 @@ def from_volume_dict(dic):
     for key, v in dic.items():
         op, args = (None, []) if v.ops is None else (v.ops[0], list(v.ops[1]))
         out.append((key, {'plus': sorted(v.pluses), 'minus': sorted(v.minuses),
-                          'op': op, 'args': args, 'fictive': bool(v.fictive)}))
+                          'op': op, 'args': args, 'fictive': bool(v.fictive),
+                          'origin': [tuple(o) for o in v.idorigin]}))
     return out
 
 
@@ -230,8 +234,10 @@ def coq_volu(v):
     if v['op'] is not None:
         kind = 'OUnion' if v['op'] == 'UNION' else 'OInte'
         ops = f'(Some ({kind}, {clist(cz(a) for a in v["args"])}))'
-    return (f'(mkVolu {clist(cz(s) for s in v["plus"])} '
-            f'{clist(cz(s) for s in v["minus"])} {ops} {cbool(v["fictive"])})')
+    origin = clist(cpair(cz(a), cz(b)) for a, b in v.get('origin', []))
+    return (f'(MkVolu {clist(cz(s) for s in v["plus"])} '
+            f'{clist(cz(s) for s in v["minus"])} {ops} {cbool(v["fictive"])} '
+            f'{origin})')
 
 
 def coq_volus(vols):
@@ -354,7 +360,9 @@ def gen_hierarchy(rng, cyclic=False, missing=False):
             if geom[0] in 'sr':
                 geom = ('*', [geom])
         cells.append((key, {'u': 0 if i < n_root else rng.choice([1, 2]),
-                            'fill': None, 'geom': geom}))
+                            'fill': None, 'geom': geom,
+                            'origin': [(key + 1, 3)] if rng.random() < 0.3
+                            else [], 'mat': rng.randint(0, 4)}))
     if rng.random() < 0.4:
         rng.shuffle(cells)
     return cells
@@ -390,16 +398,27 @@ def to_cell_dict(cells, rng):
     from t4_geom_convert.Kernel.Volume.CellMCNP import CellMCNP
     dic = {}
     for key, c in cells:
-        dic[key] = CellMCNP(1, '-1.0', to_py_geom(c['geom'], rng), 1.0,
-                            c['u'], c['fill'], None, None, [])
+        dic[key] = CellMCNP(c.get('mat', 0), str(c.get('mat', 0)) + '.5',
+                            to_py_geom(c['geom'], rng), 1.0,
+                            c['u'], c['fill'], None, None, [],
+                            [tuple(o) for o in c.get('origin', [])])
     return dic
 
 
 def from_cell_dict(dic):
     return [(key, {'u': int(c.universe),
                    'fill': None if c.fillid is None else int(c.fillid),
-                   'geom': from_py_geom(c.geometry)})
+                   'geom': from_py_geom(c.geometry),
+                   'origin': [tuple(o) for o in c.idorigin],
+                   'mat': cell_mat(c)})
             for key, c in dic.items()]
+
+
+def cell_mat(c):
+    '''(materialID, density) as one integer tag; the generator keeps the two
+    in step (density = "<mat>.5"), anything else is reported as -1.'''
+    mat = int(c.materialID)
+    return mat if str(c.density) == f'{mat}.5' else -1
 
 
 def coq_geom(tree):
@@ -412,8 +431,11 @@ def coq_geom(tree):
 
 
 def coq_cells(cells):
-    return clist(cpair(cz(k), f'mkCell {cz(c["u"])} {copt(c["fill"], cz)} '
-                              f'({coq_geom(c["geom"])})')
+    return clist(cpair(cz(k), f'MkCell {cz(c["u"])} {copt(c["fill"], cz)} '
+                              f'({coq_geom(c["geom"])}) '
+                              + clist(cpair(cz(a), cz(b))
+                                      for a, b in c.get('origin', []))
+                              + f' {cz(c.get("mat", 0))}')
                  for k, c in cells)
 
 
@@ -492,7 +514,12 @@ def gen_fill_table(rng, cyclic=False):
         geom = gen_tree(rng, [])
         if geom[0] == 's' and rng.random() < 0.7:
             geom = ('*', [geom])
-        cells.append((key, {'u': u, 'fill': fill, 'geom': geom}))
+        origin = []
+        if rng.random() < 0.25:
+            origin = [(rng.randint(50, 60), rng.randint(50, 60))
+                      for _ in range(rng.choice([1, 2]))]
+        cells.append((key, {'u': u, 'fill': fill, 'geom': geom,
+                            'origin': origin, 'mat': rng.randint(0, 5)}))
     rng.shuffle(cells)
     return cells
 
@@ -517,3 +544,95 @@ def impl_fill(cells, fd, fg, rng):
     except RecursionError:
         return free_key, ('err', 'EFuel')
     return free_key, ('ok', from_cell_dict(dic), conv.new_cell_key)
+
+
+# ---------------------------------------------------------------------------
+# the FILL loop with transformations, captured from a real conversion
+# ---------------------------------------------------------------------------
+
+class Unsupported(Exception):
+    pass
+
+
+def snapshot_cells(mcnp_dict, mats):
+    from MIP.geom.semantics import Surface
+    cells, tinfo = [], []
+
+    def check(geom):
+        if isinstance(geom, Surface) and geom.sub is not None:
+            raise Unsupported('facet reference')
+        if isinstance(geom, (list, tuple)):
+            if geom[0] not in '*:':
+                raise Unsupported(f'operator {geom[0]!r}')
+            for g in geom[1:]:
+                check(g)
+    for key, c in mcnp_dict.items():
+        check(c.geometry)
+        if c.lattice:
+            raise Unsupported('lattice cell left')
+        tag = mats.setdefault((str(c.materialID), str(c.density)), len(mats))
+        cells.append((int(key), {
+            'u': int(c.universe),
+            'fill': None if c.fillid is None else int(c.fillid),
+            'geom': from_py_geom(c.geometry),
+            'origin': [(int(a), int(b)) for a, b in c.idorigin],
+            'mat': tag}))
+        ft = tuple(float(x) for x in c.filltr) if c.filltr else None
+        tc = [tuple(float(x) for x in t) for t in (c.trcl or [])]
+        if ft is not None or tc:
+            tinfo.append((int(key), (ft, tc)))
+    return cells, tinfo
+
+
+def impl_fill_tr(deck_text, args):
+    '''Run the real conversion and capture the cell table just before the FILL
+    loop (at by_universe) and just after it (at inline_cells).  Returns
+    (pre, post) or None when the conversion does not get that far.'''
+    from t4_geom_convert.Kernel.Volume import ConstructVolumeT4 as CV
+    import impl
+    cap, mats = {}, {}
+    real_by, real_inl, real_cls = CV.by_universe, CV.inline_cells, \
+        CV.CellConversion
+
+    class Spy(real_cls):
+        def __init__(self, *a, **kw):
+            super().__init__(*a, **kw)
+            cap['conv'] = self
+
+    def spy_by(mcnp_dict):
+        conv = cap['conv']
+        try:
+            cells, tinfo = snapshot_cells(mcnp_dict, mats)
+            cap['pre'] = (cells, tinfo, conv.new_cell_key, conv.new_surf_key,
+                          len(conv.cell_transform_cache))
+        except Unsupported as exc:
+            cap['skip'] = str(exc)
+        return real_by(mcnp_dict)
+
+    def spy_inl(mcnp_dict, score):
+        conv = cap['conv']
+        try:
+            cells, _ = snapshot_cells(mcnp_dict, mats)
+            cap['post'] = (cells, conv.new_cell_key, conv.new_surf_key)
+        except Unsupported as exc:
+            cap['skip'] = str(exc)
+        return real_inl(mcnp_dict, score)
+    CV.by_universe, CV.inline_cells, CV.CellConversion = spy_by, spy_inl, Spy
+    try:
+        impl.convert(deck_text, args, keep_stdout=False)
+    finally:
+        CV.by_universe, CV.inline_cells, CV.CellConversion = \
+            real_by, real_inl, real_cls
+    if 'skip' in cap or 'pre' not in cap or 'post' not in cap:
+        return None
+    return cap['pre'], cap['post']
+
+
+def coq_tr(t):
+    return clist(cfloat(x) for x in t)
+
+
+def coq_tinfo(tinfo):
+    return clist(cpair(cz(k), cpair(copt(ft, coq_tr),
+                                     clist(coq_tr(t) for t in tc)))
+                 for k, (ft, tc) in tinfo)
